@@ -36,7 +36,7 @@ respect to the model.  Unsupported constructs raise AnalysisError (exit 2), neve
 """
 import ast
 
-from .index import AnalysisError, unparse, short
+from .index import AnalysisError, unparse, short, walk_own
 
 MAX_DEPTH = 14
 MAX_LOOP = 64
@@ -416,6 +416,7 @@ class Interp(object):
         self.trace = Trace()
         self.depth = 0
         self.handling = []      # stack of exceptions being handled (for bare `raise`)
+        self.gen_stack = []
         self.last_node = None
 
     # ----------------------------------------------------------------- entry points
@@ -522,6 +523,23 @@ class Interp(object):
             if kwargs:
                 raise AnalysisError('%s called with unknown keyword %s' % (fi.qualname, sorted(kwargs)))
             self.trace.methods.append(fi.qualname)
+            is_gen = getattr(fn, '_sa_is_gen', None)
+            if is_gen is None:
+                is_gen = fn._sa_is_gen = any(isinstance(n, (ast.Yield, ast.YieldFrom)) for n in walk_own(fn))
+            if is_gen:
+                # a generator is run eagerly and handed out as the list of yielded values; this is faithful as long as it does
+                # not raise (the consumer would otherwise have run in between) -- the callers only iterate over it
+                self.gen_stack.append([])
+                try:
+                    try:
+                        self.exec_block(fn.body, env, fi)
+                    except _Return:
+                        pass
+                    except Raised:
+                        raise AnalysisError('generator %s raises while being consumed: lazy evaluation order is not modelled' % fi.qualname)
+                    return self.gen_stack[-1]
+                finally:
+                    self.gen_stack.pop()
             try:
                 self.exec_block(fn.body, env, fi)
             except _Return as r:
@@ -678,6 +696,8 @@ class Interp(object):
             else:
                 raise Raised(self.builtin_exc('TypeError', 'cannot store a foreign object into an array', target))
             self.trace.add('STORE', arr=a, value=v, node=target)
+            if src == lf_frozen(a.val):
+                return          # storing an array's own value back is the identity
             env[target.value.id] = Arr(a.shape, lf_atom(('stored_with_entry_type_of', lf_frozen(a.val), src)),
                                        N(7.0) if a.size1 else None, False)
         else:
@@ -716,6 +736,12 @@ class Interp(object):
 
     def e_Name(self, e, env, fi):
         return self.lookup(e.id, env, fi, e)
+
+    def e_Yield(self, e, env, fi):
+        if not self.gen_stack:
+            raise AnalysisError('yield outside an interpreted generator')
+        self.gen_stack[-1].append(self.eval(e.value, env, fi) if e.value is not None else None)
+        return None
 
     def e_Tuple(self, e, env, fi):
         return tuple(self.eval(x, env, fi) for x in e.elts)
